@@ -1,7 +1,8 @@
 #!/bin/bash
 # Development tool (not a registered check): single-edit mutants of the given source files (relative to /repo);
 # for each one that compiles and passes the repository's test suite, which quick checks fire?
-# usage: mutation_campaign.sh <outfile.tsv> <file.go> [file.go ...]      (env P=workers, default 6)
+# usage: mutation_campaign.sh <outfile.tsv> <file.go> [file.go ...]      (env P=workers, default 6;
+#        MUTGEN_EXTRA=1 adds the TAG and STR operators, OPS="TAG STR" keeps only the listed operators)
 set -u
 export GOFLAGS=-mod=mod GOPROXY=off GOSUMDB=off GOTOOLCHAIN=local GOWORK=off
 out=$1; shift
@@ -12,6 +13,7 @@ for f in "$@"; do
   b=$(echo "$f" | tr '/' '_' | sed 's/\.go$//')
   /verif/bin/mutgen /repo/$f $work/m_$b >/dev/null
   while IFS=$'\t' read -r id line op desc; do
+    if [ -n "${OPS:-}" ] && ! echo " $OPS " | grep -q " $op "; then continue; fi
     printf '%s\t%s\t%s\t%s\t%s\t%s\n' "$f" "$work/m_$b/$id.go.mut" "$id" "$line" "$op" "$desc" >> $work/jobs
   done < $work/m_$b/index.tsv
 done
